@@ -17,7 +17,7 @@ import (
 
 var textClasses = map[string][]string{
 	"ascii":      {"a", "Z", "0", " ", "word", "-", "_", ".", "plain text"},
-	"quotes":     {`"`, `\`, `'`, "`", `\"`, `\\`, `\n`, `A`, "$(x)", "%s", "{{x}}"},
+	"quotes":     {`"`, `\`, `'`, "`", `\"`, `\\`, `\n`, `A`, `\u0041`, `\u2028`, `\u2029`, `C:\u2029x`, `\u003c`, `\ud83d\ude00`, `\x41`, `&#x41;`, `%41`, "$(x)", "%s", "{{x}}"},
 	"controls":   {"\n", "\r\n", "\t", "\x00", "\x01", "\x1b[31m", "\x7f", "\u0085", "\u009f", "\x0b", "\x0c"},
 	"html":       {"<", ">", "&", "<script>", "&amp;", "</b>"},
 	"separators": {"\u2028", "\u2029", "\ufeff", "\u200b", "\u200d", "\u00a0", "\u3000", "\u2003"},
